@@ -16,6 +16,8 @@ VARIABLE c
 \* prefix_crate_dirs    the directory arguments are three crate directories, one of them named like another plus a suffix (ca, ca-types)
 \* ann_*_alone   an ordinary file whose ONLY annotated item is annotated in another spelling than #[typeshare] (through the crate path,
 \*               through the absolute path ::typeshare::typeshare, with blanks inside the brackets)
+\* bad_item_arrives_*  the second item cannot be generated (a u64 field); its file reaches the collector first / between / after the two
+\*               good files of the same crate: the run reports it (Trace_C03!Reported), it is not silently omitted
 \* no_src        a crate directory without a src directory (single-file mode only: folder mode names files after the directory above src)
 Init == c \in { r \in [place : Places, mode : Modes, lang : Langs] : r.place = "no_src" => r.mode = "single" }
 Next == UNCHANGED c
